@@ -85,7 +85,8 @@ contract(FST, "strategy_from_dict", props=["C18"], lenient=True, aliases={"Any":
          notes="the dispatch keys are consumed before delegating to the concrete class")
 
 _PK = ['"name"', '"initial_strats"', '"inferral_strats"', '"ver_strats"', '"expansion_strats"', '"symmetries"', '"iterative"']
-klass(FPK, "StrategyPack", fields={})
+if "StrategyPack" not in REG.classes:      # class_queue.py (loaded earlier) declares its strategy groups
+    klass(FPK, "StrategyPack", fields={})
 contract(FPK, "StrategyPack.to_jsonable", props=["C18"], lenient=True, aliases={"Any": Any},
          params={"self": Obj("StrategyPack")}, returns=JD, ensures=["fresh(result)", "keys_are(result, " + ", ".join(_PK) + ")"],
          modifies=[], self_invariant=False)
